@@ -68,7 +68,7 @@ def correspondence(ctx):
                 if mode in ('reflect',) and (N - n > 0) and (n < 2 or max(mb, ma) > n - 1 or max(mb2, ma2) > n2 - 1):
                     continue   # np.pad rejects reflect widths > n-1
                 try:
-                    out = ft.pad2d(a, out_shape=out_shape, mode=mode, value=val)
+                    out = C.pure_call(ctx, 'pad', case, ft.pad2d, a, out_shape=out_shape, mode=mode, value=val)
                 except Exception as ex:   # the model always returns a value here
                     ctx.disagree('pad', case, f'raised {type(ex).__name__}: {ex}', f'before={mb} after={ma}')
                     ctx.pred_fail('pad', case, f'pad2d raised {type(ex).__name__}: {ex}')
@@ -97,7 +97,7 @@ def correspondence(ctx):
             case = {'op': 'crop_center', 'in': list(shp), 'out': list(out_shape)}
             ctx.case('crop', case, nontrivial=(n != N), tag=f'par{N % 2}{n % 2}')
             try:
-                out = ft.crop_center(a, out_shape)
+                out = C.pure_call(ctx, 'crop', case, ft.crop_center, a, out_shape)
             except Exception as ex:
                 ctx.disagree('crop', case, f'raised {type(ex).__name__}: {ex}', f'left={ml}')
                 ctx.pred_fail('crop', case, f'crop_center raised {type(ex).__name__}')
@@ -182,7 +182,7 @@ def correspondence(ctx):
                 case = {'shape': [m, n], 'pos': [p, q], 'dx': dx}
                 ctx.case('centroid', case, nontrivial=True)
                 try:
-                    cy, cx = psf.centroid(d, dx=dx, unit='spatial')
+                    cy, cx = C.pure_call(ctx, 'centroid', case, psf.centroid, d, dx=dx, unit='spatial')
                 except Exception as ex:
                     ctx.pred_fail('centroid', case, f'raised {type(ex).__name__}: {ex}')
                     continue
